@@ -1,5 +1,6 @@
 mod alloc;
 mod backend;
+mod image;
 mod mm;
 mod out;
 mod pure;
